@@ -14,7 +14,7 @@ pub fn run(ctx: &mut Ctx) {
         match login(&u, &p, &cu, &cp, &tape) {
             Ok(l) => { emit_login_case(ctx, "random credentials, case-flipped client input", &l);
                        if k == 1 { ctx.sample(format!("login user={:?} password={:?} typed as {:?}/{:?} tape={}", u, p, cu, cp, hex(&tape))); } }
-            Err(e) => ctx.fail("honest_login", format!("{{\"user\":{},\"password\":{},\"client_user\":{},\"client_password\":{},\"tape\":\"{}\",\"error\":\"{:?}\"}}", jstr(&u), jstr(&p), jstr(&cu), jstr(&cp), hex(&tape), e)),
+            Err(e) => ctx.fail("honest_login", format!("{{\"user\":{},\"password\":{},\"client_user\":{},\"client_password\":{},\"tape\":\"{}\",\"error\":{}}}", jstr(&u), jstr(&p), jstr(&cu), jstr(&cp), hex(&tape), jstr(&format!("{:?}", e)))),
         }
     }
     let classes: Vec<(&str, usize, Box<dyn Fn(&Login, &[u8; 32]) -> bool>)> = vec![
@@ -63,7 +63,7 @@ pub fn run(ctx: &mut Ctx) {
                     if k % 8 == 0 { if let Some(s) = secret_of(&l) { if s[0] == 0 { cls[0] += 1; } if s[31] == 0 { cls[1] += 1; } } if le_lt(&l.b_pub, &l.v) { cls[2] += 1; } cls[3] += 1; }
                 }
                 Err(LoginFail::BadOwnKey) => {}
-                Err(e) => fails.push(format!("{{\"user\":{},\"password\":{},\"client_user\":{},\"client_password\":{},\"tape\":\"{}\",\"error\":\"{:?}\"}}", jstr(&u), jstr(&p), jstr(&cu), jstr(&cp), hex(&tape), e)),
+                Err(e) => fails.push(format!("{{\"user\":{},\"password\":{},\"client_user\":{},\"client_password\":{},\"tape\":\"{}\",\"error\":{}}}", jstr(&u), jstr(&p), jstr(&cu), jstr(&cp), hex(&tape), jstr(&format!("{:?}", e)))),
             }
         }
         (fails, cls)
